@@ -53,6 +53,27 @@ CHECKS = [
         "bounded sub-objects, the four rejection classes); fixed point, zero-extension and container-independence are checked on the real code alone.",
         "note": "trusted: ref/codec.py decode; byte strings are bounded families, not all strings",
     },
+    {
+        "property_id": "C08",
+        "level": "exploration",
+        "design_ref": "DESIGN.md 4/C08",
+        "technique": "bounded-exhaustive enumeration of (composite, base offset set, field) with start positions observed on validated reference wire traces over all shapes; intrinsics evaluated through DSDL text",
+        "text": "For every composite of the bounded grammar every shape (all array lengths x union variants) is encoded with a position trace that is "
+        "validated byte-for-byte against the real serializer; iterate_fields_with_offsets / enumerate_elements_with_offsets must yield "
+        "each field once, in order, with exactly {pad(base)+start} for six base offset sets; _offset_ is printed at every position of "
+        "every structure <=3 fields and after the last union variant, T._bit_length_/T._extent_ for dependencies.",
+        "note": "trusted: ref/codec.py traces (validated against the implementation on every use), ref/layout.py cursor formulation (cross-checked with the traces); after a nested delimited object positions are those of its declared extent envelope",
+    },
+    {
+        "property_id": "C14",
+        "level": "exploration",
+        "design_ref": "DESIGN.md 4/C14",
+        "technique": "bounded-exhaustive enumeration of prefix-related delimited type pairs x container positions x values, two-directional differential decoding against a reference",
+        "text": "Every pair of delimited types whose field lists (<=3 fields) are prefix-related, with a common extent, nested as top-level object, middle "
+        "field, fixed/variable array element, union variant and field of another delimited type: container layout must be identical and every "
+        "value written with one revision must be read with the other exactly as the Specification says, in both directions.",
+        "note": "trusted: ref/codec.py and the explicit convert() expectation (checked against each other on every case)",
+    },
 ]
 
 _TODO = "check not built yet in this round (see DESIGN.md 9, implementation order)"
